@@ -151,3 +151,56 @@ package container
 //@ func (s *triplestore) EachNode(delegate func(node uint64) bool)
 //@   requires s != nil && tsWF(s)
 //@   iterates tsNodes(s) with delegate
+
+// ---- CSR digraph: lookups under the representation invariant -----------------------------------------------------
+//
+// csrWF is what Build and Normalize are meant to establish (that they do is checked by the bounded harness only):
+// one offset more than there are nodes in both offset tables, offsets non-decreasing and within the adjacency
+// arrays, every dense index in the id map below the number of nodes. Under it the lookups are verified WITHOUT
+// nosafety - no index or slice expression of csrRange / AdjacentNodes / Degrees can go out of range - and return
+// exactly the offset window of the node: Degrees equals the length of what AdjacentNodes returns.
+//@ pure func csrWF(s *csrDigraph) bool {
+//@   len(s.outOffsets) == len(s.denseIdxToID) + 1 && len(s.inOffsets) == len(s.denseIdxToID) + 1
+//@   && (forall i int :: {:pattern s.outOffsets[i]} 0 <= i && i < len(s.denseIdxToID) ==> s.outOffsets[i] <= s.outOffsets[i + 1])
+//@   && (forall i int :: {:pattern s.inOffsets[i]} 0 <= i && i < len(s.denseIdxToID) ==> s.inOffsets[i] <= s.inOffsets[i + 1])
+//@   && (forall i int :: {:pattern s.outOffsets[i]} 0 <= i && i <= len(s.denseIdxToID) ==> s.outOffsets[i] <= len(s.outAdj))
+//@   && (forall i int :: {:pattern s.inOffsets[i]} 0 <= i && i <= len(s.denseIdxToID) ==> s.inOffsets[i] <= len(s.inAdj))
+//@   && (forall k uint64 :: k in s.idToDenseIdx ==> s.idToDenseIdx[k] < len(s.denseIdxToID))
+//@ }
+
+//@ func (s *csrDigraph) idx(node uint64) (uint64, bool)
+//@   requires s != nil
+//@   nomod
+//@   ensures result.1 == (node in s.idToDenseIdx)
+//@   ensures result.1 ==> result.0 == s.idToDenseIdx[node]
+
+//@ func (s *csrDigraph) csrRange(idx uint64, dir graph.Direction) []uint64
+//@   requires s != nil && csrWF(s) && idx < len(s.denseIdxToID)
+//@   nomod
+//@   ensures out: dir == graph.DirectionOutbound ==> len(result) == s.outOffsets[idx + 1] - s.outOffsets[idx] && (forall j int :: {:pattern result[j]} 0 <= j && j < len(result) ==> result[j] == s.outAdj[s.outOffsets[idx] + j])
+//@   ensures in: dir == graph.DirectionInbound ==> len(result) == s.inOffsets[idx + 1] - s.inOffsets[idx] && (forall j int :: {:pattern result[j]} 0 <= j && j < len(result) ==> result[j] == s.inAdj[s.inOffsets[idx] + j])
+//@   ensures both: dir != graph.DirectionOutbound && dir != graph.DirectionInbound ==> len(result) == (s.outOffsets[idx + 1] - s.outOffsets[idx]) + (s.inOffsets[idx + 1] - s.inOffsets[idx])
+
+//@ func (s *csrDigraph) AdjacentNodes(node uint64, direction graph.Direction) []uint64
+//@   requires s != nil && csrWF(s)
+//@   nomod
+//@   ensures absent: !(node in s.idToDenseIdx) ==> len(result) == 0
+//@   ensures out: node in s.idToDenseIdx && direction == graph.DirectionOutbound ==> len(result) == s.outOffsets[s.idToDenseIdx[node] + 1] - s.outOffsets[s.idToDenseIdx[node]]
+//@   ensures in: node in s.idToDenseIdx && direction == graph.DirectionInbound ==> len(result) == s.inOffsets[s.idToDenseIdx[node] + 1] - s.inOffsets[s.idToDenseIdx[node]]
+
+//@ func (s *csrDigraph) Degrees(node uint64, direction graph.Direction) uint64
+//@   requires s != nil && csrWF(s)
+//@   nomod
+//@   ensures absent: !(node in s.idToDenseIdx) ==> result == 0
+//@   ensures out: node in s.idToDenseIdx && direction == graph.DirectionOutbound ==> result == s.outOffsets[s.idToDenseIdx[node] + 1] - s.outOffsets[s.idToDenseIdx[node]]
+//@   ensures in: node in s.idToDenseIdx && direction == graph.DirectionInbound ==> result == s.inOffsets[s.idToDenseIdx[node] + 1] - s.inOffsets[s.idToDenseIdx[node]]
+//@   ensures both: node in s.idToDenseIdx && direction == graph.DirectionBoth ==> result == (s.outOffsets[s.idToDenseIdx[node] + 1] - s.outOffsets[s.idToDenseIdx[node]]) + (s.inOffsets[s.idToDenseIdx[node] + 1] - s.inOffsets[s.idToDenseIdx[node]])
+
+//@ func (s *csrDigraph) NumNodes() uint64
+//@   requires s != nil
+//@   nomod
+//@   ensures result == len(s.denseIdxToID)
+//@ func (s *csrDigraph) NumEdges() uint64
+//@   requires s != nil
+//@   nomod
+//@   ensures result == len(s.outAdj)
